@@ -62,7 +62,7 @@ use std::path::{Path, PathBuf};
 
 """
 
-WORLD_FNS = ["create", "open", "remove_file", "metadata", "append", "sync", "copy", "read", "next", "sorted_fileids",
+WORLD_FNS = ["lock", "pop", "push", "create", "open", "remove_file", "metadata", "append", "sync", "copy", "read", "next", "sorted_fileids",
              "flush", "put", "delete", "get", "merge", "write", "new_active_datafile", "fileids_to_merge",
              "rebuild_storage", "populate_keydir_with_hintfile", "populate_keydir_with_datafile", "set", "del"]
 R_GHOST_ARG = make_ghost_arg_rule(WORLD_FNS, skip_after={"get": ["keydir"], "remove": [], "next": []})
@@ -112,7 +112,9 @@ R_FILEIDS_TY = make_seq_rule("R-fileids", "io::Result<impl Iterator<Item = u64>>
 R_STD_IO2 = make_seq_rule("R-std-io", "std::io::", "io::")
 
 R_VIS = make_seq_rule("R-vis", "pub fn sync", "fn sync")
-STORE_RULES = (R_VIS, R_GHOST_ARG, R_DASHMAP_ITER, R_FOR_COLLECT, R_ARC, R_ARC2, R_ARC3, R_INTERIOR_1, R_INTERIOR_2, R_INTERIOR_3,
+R_BREAK_VALUE = make_seq_rule("R-break-value", "break result;", "return result;")
+R_INTERIOR_CLOSE = make_seq_rule("R-interior", "fn close(&self)", "fn close(&mut self)")
+STORE_RULES = (R_VIS, R_BREAK_VALUE, R_INTERIOR_CLOSE, R_GHOST_ARG, R_DASHMAP_ITER, R_FOR_COLLECT, R_ARC, R_ARC2, R_ARC3, R_INTERIOR_1, R_INTERIOR_2, R_INTERIOR_3,
                R_INTERIOR_4, R_INTERIOR_5)
 
 BITCASK_ONLY = [
@@ -121,10 +123,12 @@ BITCASK_ONLY = [
     "impl Reader::fn get",
     "fn rebuild_storage", "fn populate_keydir_with_hintfile", "fn populate_keydir_with_datafile",
     "impl Writer::fn merge", "impl Context::fn fileids_to_merge",
+    "struct Handle", "impl Handle::fn put", "impl Handle::fn delete", "impl Handle::fn get", "impl Handle::fn merge", "impl Handle::fn sync", "impl Handle::fn close",
 ]
 
 UNITS["store"] = {
     "name": "store",
+    "derive_keep": ["Debug", "Default", "PartialEq", "Eq"],
     "header": STORE_HEADER,
     "specs": ["log.spec", "utils.spec", "store.spec"],
     "parts": [
@@ -149,4 +153,30 @@ UNITS["store"] = {
     },
     "root_uses": "",
     "extern": ["bytes"],
+}
+
+# ------------------------------------------------------------------------------------------------
+# unit log: the bodies of log.rs against byte-level shims
+LOG_HEADER = """#![feature(sized_hierarchy)]
+#![allow(unused_imports, dead_code, unused_variables, unused_mut, unused_parens, unused_braces, unused_unsafe)]
+use vstd::prelude::*;
+use std::path::{Path, PathBuf};
+
+"""
+R_MMAP_SLICE = make_seq_rule("R-deref-slice", "&self.mmap[(start..end)]", "self.mmap.verif_slice(start, end)")
+R_MMAP_READER = make_seq_rule("R-deref-slice", "self.mmap[start..end].reader()", "verif_slice_reader(self.mmap.verif_slice(start, end))")
+UNITS["log"] = {
+    "name": "log",
+    "header": LOG_HEADER,
+    "derive_keep": ["Debug", "Default", "PartialEq", "Eq"],
+    "specs": ["log_local.spec", "utils_local.spec"],
+    "parts": [
+        ("raw", "prelude/log_prelude.rs", "prelude"),
+        ("repo", "src/storage/bitcask/utils.rs", {"mod": "utils", "stub_all": True, "only": ["fn datafile_name", "fn hintfile_name"]}),
+        ("raw", "lemmas/log_lemmas.rs", "lemma", {"mod": "log"}),
+        ("repo", "src/storage/bitcask/log.rs", {"mod": "log", "rules": (R_MMAP_SLICE, R_MMAP_READER)}),
+    ],
+    "mod_uses": {"log": "use super::utils;\nuse super::io::Write;", "utils": ""},
+    "root_uses": "",
+    "extern": [],
 }
